@@ -102,6 +102,12 @@ func (r *dispRig) upstream(w http.ResponseWriter, req *http.Request) {
 	}
 }
 
+// schema names a dispatch policy exists for (schema names are case-sensitive: "Batch", "batch" and "BATCH" are
+// three schemas); each policy matches its own resource
+var dispNames = []string{"x", "y", "zz", "X", "Batch", "batch", "BATCH", "a.b", "a-b"}
+
+func resFor(name string) string { return fmt.Sprintf("r%xs", name) }
+
 func dispCluster(name, endpoint string, spec []c05Schema) *proxyv1alpha1.UpstreamCluster {
 	obj := &proxyv1alpha1.UpstreamCluster{
 		ObjectMeta: metav1.ObjectMeta{Name: name},
@@ -113,9 +119,9 @@ func dispCluster(name, endpoint string, spec []c05Schema) *proxyv1alpha1.Upstrea
 	for _, s := range spec {
 		obj.Spec.FlowControl.Schemas = append(obj.Spec.FlowControl.Schemas, toSchema(s))
 	}
-	for _, n := range []string{"x", "y", "zz"} {
+	for _, n := range dispNames {
 		obj.Spec.DispatchPolicies = append(obj.Spec.DispatchPolicies, proxyv1alpha1.DispatchPolicy{
-			Rules:                 []proxyv1alpha1.DispatchPolicyRule{{Verbs: []string{"*"}, APIGroups: []string{"*"}, Resources: []string{n + "s"}}},
+			Rules:                 []proxyv1alpha1.DispatchPolicyRule{{Verbs: []string{"*"}, APIGroups: []string{"*"}, Resources: []string{resFor(n)}}},
 			FlowControlSchemaName: n,
 		})
 	}
@@ -205,7 +211,7 @@ func (r *dispRig) start(cluster, name string, id int64, exit string) *dispReq {
 	r.mu.Unlock()
 	path := "/api/v1/other"
 	if name != "" {
-		path = "/api/v1/" + name + "s"
+		path = "/api/v1/" + resFor(name)
 	}
 	req := httptest.NewRequest("GET", "https://"+cluster+path, nil).WithContext(ctx)
 	req.Host = cluster
